@@ -668,8 +668,14 @@ def run(ctx):
             ctx.note("Gen/T_config_param.v changed: the source of _get_config_param differs from the last run")
     except translate_c17.TranslateError as e:
         translator_ok = False
+        good = os.path.join(common.COQ, "Gen", ".T_config_param.v.good")
+        if os.path.exists(good):   # proofs are then checked against the last translation that was proved, not a stale one
+            common.write_if_changed(os.path.join(common.COQ, "Gen", "T_config_param.v"), open(good).read())
         ctx.note("translator rejected _get_config_param (%s); falling back to the hand model tie" % e)
     proofs_ok = ctx.standard_proof_stage("C17", search=lambda: search_failing(ctx))
+    if proofs_ok and translator_ok:
+        common.write_if_changed(os.path.join(common.COQ, "Gen", ".T_config_param.v.good"),
+                                open(os.path.join(common.COQ, "Gen", "T_config_param.v")).read())
 
     # ---- cases
     progs = gen_exhaustive(quick)
